@@ -141,6 +141,10 @@ class SMChart(BaseChart):
             and self.notes == other.notes
         )
 
+    def __ne__(self, other):
+        # Without this, != would come from OrderedDict and compare key order
+        return not self.__eq__(other)
+
     # Prevent keys from being added or removed
 
     def update(self, *args, **kwargs) -> None:
